@@ -162,19 +162,22 @@ class Strings:
             ok = z3.And(valid, N >= 0, b.t >= 0, b.t < P)
             if sg < 0:
                 # '-' + "%d.%0Nd" % (a, b) is a numeral only when a >= 0
-                return z3.And(ok, a.t >= 0, -(a.t * P + b.t) * den == num * P)
+                val = -(a.t * P + b.t)
+                return z3.And(ok, a.t >= 0, z3.Or(z3.And(den == P, val == num), val * den == num * P))
             val = z3.If(a.t >= 0, a.t * P + b.t, a.t * P - b.t)
-            return z3.And(ok, val * den == num * P)
+            return z3.And(ok, z3.Or(z3.And(den == P, val == num), val * den == num * P))
         if s.struct and s.struct[0] == 'decg':
             _, a, b, N, c, M, valid = s.struct
             self.pow10_facts(st, N)
             self.pow10_facts(st, M)
             P, Q = pow10(N), pow10(M)
+            T = pow10(z3.simplify(N + M))       # 10^(N+M) = P*Q (A-pow10), kept as one term
             ok = z3.And(valid, N >= 0, M >= 1, b.t >= 0, b.t < P, c.t >= 0, c.t < Q)
             if sg < 0:
-                return z3.And(ok, a.t >= 0, -((a.t * P + b.t) * Q + c.t) * den == num * P * Q)
-            val = z3.If(a.t >= 0, (a.t * P + b.t) * Q + c.t, (a.t * P - b.t) * Q - c.t)
-            return z3.And(ok, val * den == num * P * Q)
+                val = -(a.t * T + b.t * Q + c.t)
+                return z3.And(ok, a.t >= 0, z3.Or(z3.And(den == T, val == num), val * den == num * T))
+            val = z3.If(a.t >= 0, a.t * T + b.t * Q + c.t, a.t * T - b.t * Q - c.t)
+            return z3.And(ok, z3.Or(z3.And(den == T, val == num), val * den == num * T))
         return z3.BoolVal(False)
 
 
